@@ -165,7 +165,7 @@ protected:
   }
 
   inline void decodeNext() {
-    uchar *vb = new uchar[maxlength];
+    uchar *vb = new uchar[maxlength + 5]; // a whole coded string may land here: VByte + suffix + closing symbol
     uint read = 0;
 
     uint rule;
